@@ -220,7 +220,8 @@ func (a *act) newObject(t types.Type, st *State, hint string) Term {
 		e.heapSet(st, name, store(h, r, zeroOf(l.Sort)))
 	}
 	// ghost state with a declared initial value (e.g. a zero bytes.Buffer is empty)
-	for _, sf := range e.specFuncs {
+	for _, sfName := range sortedKeys(e.specFuncs) {
+		sf := e.specFuncs[sfName]
 		if !sf.Ghost || sf.Body == nil || len(sf.Params) != 1 {
 			continue
 		}
@@ -443,14 +444,15 @@ func (a *act) globalInit(g *ssa.Global, st *State) Val {
 
 func (a *act) havocAll(st *State) {
 	e := a.e
-	for name, srt := range e.cur.heapSorts {
-		st.heap[name] = e.cur.log.fresh(name, srt)
+	for _, name := range sortedKeys(e.cur.heapSorts) {
+		st.heap[name] = e.cur.log.fresh(name, e.cur.heapSorts[name])
 	}
 	st.known = nil
 	// heaps never touched so far are represented by a new epoch
 	st.epoch = fmt.Sprintf("%s.h%d", st.epoch, e.cur.log.nfresh)
 	e.cur.log.nfresh++
-	for k, v := range st.locals {
+	for _, k := range sortedLocalKeys(st.locals) {
+		v := st.locals[k]
 		if g, ok := k.(*ssa.Global); ok {
 			if _, isConst := e.constGlobal(g); !isConst {
 				st.locals[k] = e.freshVal("g", v.Typ, st)
